@@ -5,12 +5,14 @@ from checks import system
 
 
 def run(ctx):
-    system.design_engine(ctx) if hasattr(system, "design_engine") else None
+    system.engine_design(ctx)
     for tags in (["verif"] + (["verif poll_opt gc_opt"] if ctx.thorough else [])):
         t = system.record(ctx, "shutdown-" + tags.replace(" ", "+"), test="TestVerifShutdown", tags=tags, rounds=3 if ctx.thorough else 1)
         system.validate(ctx, t, ["TrLife"], "shutdown sources x moments, " + tags)
+        system.engine_traces(ctx, t, "shutdown " + tags)
     t = system.record(ctx, "sys")
     system.validate(ctx, t, ["TrLife"], "general scenarios")
+    system.engine_traces(ctx, t, "general scenarios")
     ctx.assumptions += system.SYS_ASSUME + ["bounded time is judged as: Run returns within 20 s of the request on an otherwise idle machine"]
     return vlib.finish(ctx, "model_checking",
-                       "one case = one engine life ended by a shutdown request from {Engine.Stop, Stop, OnTick, OnOpen, OnTraffic, OnClose, OnBoot} x {reactor, reuse-port} with idle / active / just-being-accepted connections; every event validated by TrLife.tla (Run returns nil, all opened connections closed before it returns, OnShutdown once, nothing after return, OnBoot shutdown starts nothing)")
+                       "one case = one engine life ended by a shutdown request from {Engine.Stop, Stop, OnTick, OnOpen, OnTraffic, OnClose, OnBoot} x {reactor, reuse-port} with idle / active / just-being-accepted connections; every event validated by TrLife.tla (Run returns nil, all opened connections closed before it returns, OnShutdown once, nothing after return, OnBoot shutdown starts nothing); Engine.tla (acceptors, hand-off queues, shutdown sources, engine.stop, ticker) model-checked for safety and termination, and every recorded engine life validated against it (EngineTrace.tla)")
